@@ -88,3 +88,7 @@ func ZZAttachWitness(c *Controller) bool {
 // ZZSymbolicControllerLite: membership, modes and checkpoint symbolic; every replica
 // holds the same two-element chain.
 func ZZSymbolicControllerLite(rf int) *Controller { return zzSymbolicEnvReg(rf, false).c }
+
+// ZZCheckMembership asserts the membership invariant Inv-C (settled form) on the
+// controller built last.
+func (c *Controller) ZZCheckMembership(tag string) { zzLastEnv.zzCheckInvC(tag, true, false) }
